@@ -148,6 +148,10 @@ def pool(V):
     p["fs_huge"] = FractionScalar(FractionValue(1, Fraction(10**400, 3)), "in")
     p["py_huge_int"] = 10**400
     p["py_huge_neg"] = -(10**400)
+    p["us_ab"] = UnitSystem("o", "O", {"length": "m", "time": "s"})
+    us_ba = UnitSystem("o", "O", {"time": "s"})
+    us_ba.SetDefaultUnit("length", "m")  # the same mapping filled in another order
+    p["us_ba"] = us_ba
     p["py_None"] = None
     p["py_str"] = "m"
     p["py_int"] = 1
@@ -224,6 +228,13 @@ def props(cfg, T, obs):
         x, y = T["x"], T["y"]
         pa = oracle_convert(db, cfg["qt"], cfg["u"], db.GetUnits(cfg["qt"])[0], x + (_frac(cfg) if cfg["cls"] == "FractionScalar" else 0))
         pb = oracle_convert(db, cfg["qt"], cfg["v"], db.GetUnits(cfg["qt"])[0], y)
+        if cfg["cls"] == "Scalar":
+            # physical amounts read from the coefficients the rows PUBLISH, (A + B x) / C, where both rows have them (independent of the closures the comparison itself uses)
+            from .common import coef_tobase
+
+            ca, cb = coef_tobase(db, cfg["qt"], cfg["u"], x), coef_tobase(db, cfg["qt"], cfg["v"], y)
+            if ca is not None and cb is not None:
+                pa, pb = ca, cb
         (lt, le, gt, ge), (lt2, le2, gt2, ge2) = obs["ab"], obs["ba"]
         B = z3.BoolVal
         P = [("a<b, a<=b, a>b, a>=b <=> the same comparison of phys(a), phys(b)",
